@@ -304,3 +304,21 @@ LEVEL_TEXT += _ADDR5B
 _ADDR5D = ' Borrowed: R16.1 (aliases are spliced into the key-assignment lines through repr, so the emitted key is the alias verbatim).'
 EXPLANATION += _ADDR5D
 LEVEL_TEXT += _ADDR5D
+
+
+_run_before_r6b = run
+
+
+def run(repo, rep, tier):  # noqa: F811 -- round-6 remedies (core/round6.py)
+    _run_before_r6b(repo, rep, tier)
+    if getattr(rep, "borrowed", False):
+        return
+    from ..core import round6 as _r6b
+    _r6b.shared_options_read_through_chain(repo, rep, "R08.9")
+    _r6b.nullability_sites_agree(repo, rep, "R08.10")
+    _r6b.omit_default_comparison(repo, rep, "R08.11")
+
+
+_ADDR6C = ' R08.9: options declared by both Dialect and BaseConfig are read through get_dialect_or_config_option only. R08.10: the four could_be_none decisions (field packer/unpacker, codec encode/decode) carry the same disjuncts (Any/None on the annotated type, unconstrained TypeVar, Optional). R08.11: the omit_default guard is a comparison with the default, never truthiness.'
+EXPLANATION += _ADDR6C
+LEVEL_TEXT += _ADDR6C
